@@ -25,6 +25,7 @@
   lists of strings, as an explicit hypothesis.
 -/
 import TypedpyModel.Sem.Validate
+import TypedpyModel.Sem.Deser
 namespace Typedpy.Err
 open Typedpy
 
@@ -252,8 +253,14 @@ def Out.infos : Out → List Info
   | .single i => [i]
   | .many is => is
 
-/-! ### where a flat field's rejection is raised: path suffix, shape, foreign exceptions -/
+/-! ### where a field's rejection is raised: path suffix chain, shape, foreign exceptions
 
+Every collection field hands its own path down to its item fields (`setattr(items, "_name",
+self._name + "_<i>")`, `_key`, `_value`; a Set's items keep the Set's own name), so the path of a
+rejection inside nested collections is the top-level field name followed by one suffix per level:
+`aaa_1_1_1`, `am_1_value`, `mm_value_key`, `tt_0_1`, `stt_1` (Set[Tuple[…]]: the Set adds nothing). -/
+
+/-- one level of the path: `_<index>`, `_key`, `_value` (`none`: the level adds nothing) -/
 inductive Suffix where
   | none | idx (i : Nat) | key | val
 deriving Repr, DecidableEq, Inhabited
@@ -274,9 +281,16 @@ def Suffix.text : Suffix → Text
   | .key => ['_', 'k', 'e', 'y']
   | .val => ['_', 'v', 'a', 'l', 'u', 'e']
 
+/-- the suffix chain from the top-level field down to the rejecting position, outermost first -/
+abbrev SufPath := List Suffix
+
+def SufPath.text : SufPath → Text
+  | [] => []
+  | s :: rest => s.text ++ SufPath.text rest
+
 /-- location of a rejection inside one top-level field -/
 structure Loc where
-  suffix : Suffix := .none
+  suffix : SufPath := []
   shape : Shape := .gotFirst
   /-- exception class where it differs from the one `validate` (Sem/Validate.lean) reports:
       since /repo 9c7ef9a `Enum._validate` no longer hashes the value, so an unhashable value is a
@@ -293,6 +307,8 @@ def locScalar (f : FieldDecl) (v : PyVal) : Loc :=
   | .float _ => (match v with | .int _ | .float _ => {} | _ => { shape := .gotLast })
   | .boolean => { shape := .gotLast }
   | .enumCls _ _ => { cls := some .valueErr }
+  -- ClassReference (`TypedField`): `Expected <Structure: …>; Got <v>`
+  | .struct _ _ _ => { shape := .gotLast }
   | _ => {}
 
 def isOk {α} : R α → Bool
@@ -311,7 +327,8 @@ def firstBadZip (O : Oracles) : Nat → List FieldDecl → List PyVal → Option
   | i, f :: fs, x :: xs =>
     if isOk (validate O f x) then firstBadZip O (i + 1) fs xs else some (i, f, x)
 
-def withSuffix (s : Suffix) (l : Loc) : Loc := { l with suffix := s }
+/-- one level further out: the level's own suffix goes in front -/
+def withSuffix (s : Suffix) (l : Loc) : Loc := { l with suffix := s :: l.suffix }
 
 /-- Array / Deque / Tuple: type → uniqueItems → size → length rule → elements → uniqueItems -/
 def locSeqLike (xs? : Option (List PyVal)) (uniq : Bool) (sz : SizeOpts) (pre : List PyVal → Bool)
@@ -326,61 +343,90 @@ def locSeqLike (xs? : Option (List PyVal)) (uniq : Bool) (sz : SizeOpts) (pre : 
       | some l => l
       | none => {}
 
-def badOf (O : Oracles) (f : FieldDecl) (xs : List PyVal) : Option Loc :=
-  (firstBad O f 0 xs).map fun ix => withSuffix (.idx ix.1) (locScalar f ix.2)
-
-def badZip (O : Oracles) (fs : List FieldDecl) (xs : List PyVal) : Option Loc :=
-  (firstBadZip O 0 fs xs).map fun ifx => withSuffix (.idx ifx.1) (locScalar ifx.2.1 ifx.2.2)
+/-- homogeneous items: the first rejected element `i`, located by the item field under `_<i>` -/
+def badOf (O : Oracles) (f : FieldDecl) (loc : PyVal → Loc) (xs : List PyVal) : Option Loc :=
+  (firstBad O f 0 xs).map fun ix => withSuffix (.idx ix.1) (loc ix.2)
 
 def tupleElems : PyVal → Option (List PyVal)
   | .tuple xs => some xs
   | _ => none
 
-/-- Set / ImmutableSet: type → size → elements (path = the field itself) → size -/
-def locSet (O : Oracles) (item : Option FieldDecl) (sz : SizeOpts) (v : PyVal) : Loc :=
+/-- Set / ImmutableSet: type → size → elements (the item field keeps the Set's own name: no suffix
+    for this level) → size -/
+def locSet (O : Oracles) (item : Option (FieldDecl × (PyVal → Loc))) (sz : SizeOpts) (v : PyVal) : Loc :=
   match v with
   | .set _ xs =>
     if !sizeOk sz xs.length then { shape := .gotLast }
-    else match item.bind fun f => (firstBad O f 0 xs).map fun ix => locScalar f ix.2 with
+    else match item.bind fun fl => (firstBad O fl.1 0 xs).map fun ix => fl.2 ix.2 with
       | some l => l
       | none => { shape := .gotLast }
   | _ => {}
 
 /-- first entry whose key (then value) is rejected -/
-def firstBadEntry (O : Oracles) (kf vf : FieldDecl) : List (PyVal × PyVal) → Option Loc
+def firstBadEntry (O : Oracles) (kf vf : FieldDecl) (lk lv : PyVal → Loc) :
+    List (PyVal × PyVal) → Option Loc
   | [] => none
   | (k, x) :: rest =>
-    if !isOk (validate O kf k) then some (withSuffix .key (locScalar kf k))
-    else if !isOk (validate O vf x) then some (withSuffix .val (locScalar vf x))
-    else firstBadEntry O kf vf rest
+    if !isOk (validate O kf k) then some (withSuffix .key (lk k))
+    else if !isOk (validate O vf x) then some (withSuffix .val (lv x))
+    else firstBadEntry O kf vf lk lv rest
 
 /-- Map: type (`Expected a dict`, no value) → size → key / value per entry → size -/
-def locMap (O : Oracles) (kv : Option (FieldDecl × FieldDecl)) (sz : SizeOpts) (v : PyVal) : Loc :=
+def locMap (O : Oracles) (kv : Option (List (PyVal × PyVal) → Option Loc)) (sz : SizeOpts) (v : PyVal) : Loc :=
   match v with
   | .dict kvs =>
     if !sizeOk sz kvs.length then { shape := .gotLast }
-    else match kv.bind fun p => firstBadEntry O p.1 p.2 kvs with
+    else match kv.bind fun g => g kvs with
       | some l => l
       | none => { shape := .gotLast }
   | _ => { shape := .plain }
 
-/-- where the rejection of `v` by the flat field `f` is raised (meaningful when `validate` fails) -/
-def locate (O : Oracles) (f : FieldDecl) (v : PyVal) : Loc :=
-  match f with
-  | .seqAny k sz => locSeqLike (seqElems k v) sz.uniq sz (fun _ => true) (fun _ => none)
-  | .seqOf k item sz => locSeqLike (seqElems k v) sz.uniq sz (fun _ => true) (badOf O item)
-  | .seqPos k fs addl sz =>
+mutual
+/-- where the rejection of `v` by the field `f` is raised (meaningful when `validate` fails): the
+    suffix chain through nested collections down to the first rejecting position, and the shape of
+    the message raised there.  Structural recursion over the declaration tree, any depth. -/
+def locate (O : Oracles) : FieldDecl → PyVal → Loc
+  | .seqAny k sz, v => locSeqLike (seqElems k v) sz.uniq sz (fun _ => true) (fun _ => none)
+  | .seqOf k item sz, v =>
+    locSeqLike (seqElems k v) sz.uniq sz (fun _ => true) (badOf O item (locate O item))
+  | .seqPos k fs addl sz, v =>
     locSeqLike (seqElems k v) sz.uniq sz
       (fun xs => decide (fs.length ≤ xs.length) && (addl || decide (xs.length ≤ fs.length)))
-      (badZip O fs)
-  | .setAny _ sz => locSet O none sz v
-  | .setOf _ item sz => locSet O (some item) sz v
-  | .tupleOf item uniq => locSeqLike (tupleElems v) uniq {} (fun _ => true) (badOf O item)
-  | .tuplePos fs uniq =>
-    locSeqLike (tupleElems v) uniq {} (fun xs => fs.length == xs.length) (badZip O fs)
-  | .mapAny sz => locMap O none sz v
-  | .mapOf kf vf sz => locMap O (some (kf, vf)) sz v
-  | f => locScalar f v
+      (locateZip O 0 fs)
+  | .setAny _ sz, v => locSet O none sz v
+  | .setOf _ item sz, v => locSet O (some (item, locate O item)) sz v
+  | .tupleOf item uniq, v =>
+    locSeqLike (tupleElems v) uniq {} (fun _ => true) (badOf O item (locate O item))
+  | .tuplePos fs uniq, v =>
+    locSeqLike (tupleElems v) uniq {} (fun xs => fs.length == xs.length) (locateZip O 0 fs)
+  | .mapAny sz, v => locMap O none sz v
+  | .mapOf kf vf sz, v =>
+    locMap O (some (firstBadEntry O kf vf (locate O kf) (locate O vf))) sz v
+  | .number o, v => locScalar (.number o) v
+  | .integer o, v => locScalar (.integer o) v
+  | .float o, v => locScalar (.float o) v
+  | .string a b c, v => locScalar (.string a b c) v
+  | .boolean, v => locScalar .boolean v
+  | .enumLit vs, v => locScalar (.enumLit vs) v
+  | .enumCls c ns, v => locScalar (.enumCls c ns) v
+  | .struct _ _ _, _ => { shape := .gotLast }
+  | .anyOf _, _ => {}
+  | .oneOf _, _ => {}
+  | .allOf _, _ => {}
+  | .notF _, _ => {}
+  | .noneF, _ => {}
+  | .anything, _ => {}
+termination_by structural f _ => f
+
+/-- positional items: the first rejected element `i`, located by ITS field under `_<i>` -/
+def locateZip (O : Oracles) : Nat → List FieldDecl → List PyVal → Option Loc
+  | _, [], _ => none
+  | _, _ :: _, [] => none
+  | i, f :: fs, x :: xs =>
+    if isOk (validate O f x) then locateZip O (i + 1) fs xs
+    else some (withSuffix (.idx i) (locate O f x))
+termination_by structural _ fs _ => fs
+end
 
 def isScalarDecl : FieldDecl → Bool
   | .number _ | .integer _ | .float _ | .string _ _ _ | .boolean | .enumLit _ | .enumCls _ _ => true
@@ -393,6 +439,27 @@ def isFlatDecl : FieldDecl → Bool
   | .seqPos _ fs _ _ | .tuplePos fs _ => fs.all isScalarDecl
   | .mapOf kf vf _ => isScalarDecl kf && isScalarDecl vf
   | f => isScalarDecl f
+
+mutual
+/-- the extended domain of the path model: scalars, class references (`ClassReference`, not the
+    inline `StructureReference`) and collections of these at ANY nesting depth -/
+def isPathDecl : FieldDecl → Bool
+  | .number _ | .integer _ | .float _ | .string _ _ _ | .boolean | .enumLit _ | .enumCls _ _ => true
+  | .seqAny _ _ | .setAny _ _ | .mapAny _ => true
+  | .seqOf _ item _ => isPathDecl item
+  | .setOf _ item _ => isPathDecl item
+  | .tupleOf item _ => isPathDecl item
+  | .seqPos _ fs _ _ => allPathDecl fs
+  | .tuplePos fs _ => allPathDecl fs
+  | .mapOf kf vf _ => isPathDecl kf && isPathDecl vf
+  | .struct c _ _ => !c.inline
+  | _ => false
+termination_by structural f => f
+def allPathDecl : List FieldDecl → Bool
+  | [] => true
+  | f :: fs => isPathDecl f && allPathDecl fs
+termination_by structural fs => fs
+end
 
 /-! ### `Structure.__init__` for a flat class: which messages are raised -/
 
@@ -554,6 +621,9 @@ The scratch names are an input of the model (observed by the harness just before
 
 inductive P1Kind where
   | named | inner | foreign
+  /-- a dict document of a top-level class-reference field: the nested structure's own error is
+      passed through unchanged (its path is the NESTED field's), nothing of the outer field is added -/
+  | nested
 deriving Repr, DecidableEq, Inhabited
 
 structure P1Site where
@@ -675,6 +745,174 @@ def p1Sites (O : Oracles) (scr : List (String × List (Option String))) (doc : L
     | none => none
     | some v => if v.isNone then none else p1Site O ((lookup nf.1 scr).getD []) nf.1 nf.2 v
 
+/-! ### deserialization at any nesting depth: the head of the text `deserialize_single_field` raises
+
+Accept / reject (and the exception class) come from `deser` (Sem/Deser.lean, the full model of
+`deserialize_single_field` at any depth, nested structures included).  Here: the text every such
+rejection is GUARANTEED to begin with, as a function of the declaration tree, the name handed down
+and the position of the first rejected element — independent of every scratch `_name`:
+  * `deserialize_list_like`, homogeneous items: element `i` is deserialized under `<name>_<i>`; its
+    error is kept if it starts with `<name>_<i>`, else prefixed `<name>_<i>: `;
+  * positional items: element `i` is deserialized under `<name>` and ALWAYS prefixed `<name>_<i>: `;
+  * `deserialize_map`: value (first) and key under `<name>`; kept if the text starts with `<name>:`
+    or `<name>_`, else prefixed `<name>: `;
+  * Enum and other `SerializableField`s: kept if it starts with `<name>`, else prefixed `<name>: `;
+  * StructureReference, AnyOf / OneOf / AllOf / NotField, NoneField, "not list-like", "not a dict",
+    "too short", `set(values)`: the branch's own `<name>: Got …` (`<name>: Expected a dictionary; Got …`
+    for a class reference given a non-dict);
+  * a class reference given a dict: NOTHING — the nested structure's error passes through unchanged;
+  * Number / String / Boolean: the field's own scratch `_name` (nothing guaranteed here; the wrappers
+    above supply the path). -/
+
+def firstFail (ok : PyVal → Bool) : Nat → List PyVal → Option (Nat × PyVal)
+  | _, [] => none
+  | i, x :: xs => if ok x then firstFail ok (i + 1) xs else some (i, x)
+
+def startsWith (p t : Text) : Bool := (dropPre p t).isSome
+
+def sColonGot : Text := [':', ' ', 'G', 'o', 't', ' ']
+def sExpDict : Text := ": Expected a dictionary; Got ".toList
+
+/-- homogeneous list-like element wrapper -/
+def dWrapIdx (name : Text) (i : Nat) (inner : Text) : Text :=
+  let ni := name ++ ('_' :: natText i i)
+  if startsWith ni inner then inner else ni
+
+/-- `deserialize_map` entry wrapper -/
+def dWrapMap (name : Text) (inner : Text) : Text :=
+  if startsWith (name ++ [':']) inner || startsWith (name ++ ['_']) inner then inner else name
+
+def dHeadHomog (ok : PyVal → Bool) (h : Text → PyVal → Text) (name : Text) (xs : List PyVal) :
+    Option Text :=
+  (firstFail ok 0 xs).map fun ix => dWrapIdx name ix.1 (h (name ++ ('_' :: natText ix.1 ix.1)) ix.2)
+
+/-- entries in dict order, the value before the key -/
+def dHeadEntries (okK okV : PyVal → Bool) (hK hV : Text → PyVal → Text) (name : Text) :
+    List (PyVal × PyVal) → Option Text
+  | [] => none
+  | (k, x) :: rest =>
+    if !okV x then some (dWrapMap name (hV name x))
+    else if !okK k then some (dWrapMap name (hK name k))
+    else dHeadEntries okK okV hK hV name rest
+
+def dHeadListLike (name : Text) (v : PyVal) (k : List PyVal → Option Text) : Text :=
+  match listLike v with
+  | none => name ++ sColonGot
+  | some xs => (k xs).getD (name ++ sColonGot)    -- `content_type(values)` failing: `<name>: Got …`
+
+def mapOpts (opts : DeserOpts) : DeserOpts := { opts with keepUndefined := true }
+
+mutual
+/-- what the text of a rejection by `deserialize_single_field(f, v, name)` is guaranteed to begin
+    with (`[]`: nothing).  Structural recursion over the declaration tree, any depth. -/
+def dHead (O : Oracles) (opts : DeserOpts) : FieldDecl → Text → PyVal → Text
+  | .seqAny _ _, name, v => dHeadListLike name v fun _ => none
+  | .setAny _ _, name, v => dHeadListLike name v fun _ => none
+  | .seqOf _ item _, name, v =>
+    dHeadListLike name v (dHeadHomog (fun x => isOk (deser O opts false item x)) (dHead O opts item) name)
+  | .setOf _ item _, name, v =>
+    dHeadListLike name v (dHeadHomog (fun x => isOk (deser O opts false item x)) (dHead O opts item) name)
+  | .tupleOf item _, name, v =>
+    dHeadListLike name v (dHeadHomog (fun x => isOk (deser O opts false item x)) (dHead O opts item) name)
+  | .seqPos _ fs _ _, name, v =>
+    dHeadListLike name v fun xs =>
+      if xs.length < fs.length then none else dHeadZip O opts name 0 fs xs
+  | .tuplePos fs _, name, v =>
+    dHeadListLike name v fun xs =>
+      if xs.length < fs.length then none else dHeadZip O opts name 0 fs xs
+  | .mapAny _, name, _ => name ++ sColonGot
+  | .mapOf kf vf _, name, v =>
+    (match v with
+     | .dict kvs =>
+       (dHeadEntries (fun k => isOk (deser O (mapOpts opts) false kf k))
+          (fun x => isOk (deser O (mapOpts opts) false vf x))
+          (dHead O (mapOpts opts) kf) (dHead O (mapOpts opts) vf) name kvs).getD name
+     | _ => name ++ sColonGot)
+  | .struct c _ _, name, v =>
+    if c.inline then name ++ sColonGot
+    else (match v with
+      | .dict _ => []
+      | _ => name ++ sExpDict)
+  | .enumLit _, name, _ => name
+  | .enumCls _ _, name, _ => name
+  | .anyOf _, name, _ => name ++ sColonGot
+  | .oneOf _, name, _ => name ++ sColonGot
+  | .allOf _, name, _ => name ++ sColonGot
+  | .notF _, name, _ => name ++ sColonGot
+  | .noneF, name, _ => name ++ sColonGot
+  | .number _, _, _ => []
+  | .integer _, _, _ => []
+  | .float _, _, _ => []
+  | .string _ _ _, _, _ => []
+  | .boolean, _, _ => []
+  | .anything, _, _ => []
+termination_by structural f _ _ => f
+
+/-- positional items: the first rejected element `i`: `<name>_<i>: ` + what its field guarantees
+    under `<name>` -/
+def dHeadZip (O : Oracles) (opts : DeserOpts) (name : Text) : Nat → List FieldDecl → List PyVal → Option Text
+  | _, [], _ => none
+  | _, _ :: _, [] => none
+  | i, f :: fs, x :: xs =>
+    if isOk (deser O opts false f x) then dHeadZip O opts name (i + 1) fs xs
+    else some (name ++ ('_' :: natText i i) ++ [':', ' '] ++ dHead O opts f name x)
+termination_by structural _ fs _ => fs
+end
+
+/-- a class reference (`ClassReference`, not the inline `StructureReference`) -/
+def isClassRef : FieldDecl → Bool
+  | .struct c _ _ => !c.inline
+  | _ => false
+
+/-- a dict document -/
+def isDictVal : PyVal → Bool
+  | .dict _ => true
+  | _ => false
+
+/-- the phase-one rejection site of one supplied, non-null document value of a field of ANY
+    declaration: exists exactly when `deser` rejects; flat fields keep the finer (scratch-aware)
+    model `p1Site`. -/
+def p1SiteD (O : Oracles) (opts : DeserOpts) (ign : Bool) (scr : List (Option String)) (name : String)
+    (f : FieldDecl) (v : PyVal) : Option P1Site :=
+  if isFlatDecl f then p1Site O scr name f v
+  else match deser O opts ign f v with
+    | .ok _ => none
+    | .error e =>
+      if isClassRef f && isDictVal v
+      then some ⟨name, .nested, none, e⟩
+      else some ⟨name, .named, some (dHead O opts f name.toList v), e⟩
+
+def p1SitesD (O : Oracles) (opts : DeserOpts) (ign : Bool) (scr : List (String × List (Option String)))
+    (doc : List (String × PyVal)) (fields : List (String × FieldDecl)) : List P1Site :=
+  fields.filterMap fun nf =>
+    match lookup nf.1 doc with
+    | none => none
+    | some v => if v.isNone then none else p1SiteD O opts ign ((lookup nf.1 scr).getD []) nf.1 nf.2 v
+
+/-- the keyword arguments phase one hands to the constructor (the fields it accepts, deserialized) -/
+def deserArgs (O : Oracles) (opts : DeserOpts) (ign : Bool) (doc : List (String × PyVal))
+    (fields : List (String × FieldDecl)) : List (String × PyVal) :=
+  fields.filterMap fun nf =>
+    match lookup nf.1 doc with
+    | none => none
+    | some v => if v.isNone then none else
+      match deser O opts ign nf.2 v with
+      | .ok y => some (nf.1, y)
+      | .error _ => none
+
+/-- the supplied fields that deserialization must reject, at any depth: phase one rejects the
+    document value, or the constructor rejects what phase one made of it (the property's right-hand
+    side for deserialization; message code plays no part) -/
+def deserInvalid (O : Oracles) (opts : DeserOpts) (ign : Bool) (doc : List (String × PyVal))
+    (fields : List (String × FieldDecl)) : List String :=
+  fields.filterMap fun nf =>
+    match lookup nf.1 doc with
+    | none => none
+    | some v => if v.isNone then none else
+      match deser O opts ign nf.2 v with
+      | .ok y => if isOk (validate O nf.2 y) then none else some nf.1
+      | .error _ => some nf.1
+
 /-- a key-renaming mapper (`_serialization_mapper` / `_deserialization_mapper` dict, TO_LOWERCASE,
     TO_CAMELCASE, `Deserializer(mapper=…)`, `camel_case_convert`; aggregated to field ↦ document key):
     `construct_fields_map` reads field `f` under its mapped key but passes the FIELD name on as the
@@ -690,9 +928,34 @@ def P1Site.namesOwnField (s : P1Site) : Bool :=
   | none => false
 
 
+/-! ### class names typedpy itself produces
+
+The class name is the first component of every message head (`f"{cls_name}.{e}"`), so the names
+typedpy gives to the classes IT creates are part of the formatter: `Partial[Foo]`,
+`AllFieldsRequired[Foo]`, `Extend[Foo]`, `Omit[Foo, …]`, `Pick[Foo, …]` without an explicit class
+name are called `PartialFoo`, `AllFieldsRequiredFoo`, `ExtendFoo`, `OmitFoo`, `PickFoo`
+(structures_reuse.py, structures.py). -/
+
+inductive Derive where
+  | partialOf | allRequired | extend | omit | pick
+deriving Repr, DecidableEq, Inhabited
+
+def Derive.pre : Derive → Text
+  | .partialOf => "Partial".toList
+  | .allRequired => "AllFieldsRequired".toList
+  | .extend => "Extend".toList
+  | .omit => "Omit".toList
+  | .pick => "Pick".toList
+
+/-- `__name__` of the derived class: the caller's explicit name, else prefix + base name -/
+def derivedName (d : Derive) (explicit : Option Text) (base : Text) : Text :=
+  match explicit with
+  | some n => n
+  | none => d.pre ++ base
+
 /-- the field text `p` names the top-level field `top` of class `cls?`:
-    `[<Class>.]<top>[_<index> | _key | _value]` -/
+    `[<Class>.]<top>(_<index> | _key | _value)*` (one suffix per nesting level) -/
 def namesField (cls : Option Text) (top : String) (p : Text) : Prop :=
-  ∃ suf : Suffix, p = withClass cls (top.toList ++ suf.text)
+  ∃ suf : SufPath, p = withClass cls (top.toList ++ suf.text)
 
 end Typedpy.Err
